@@ -401,7 +401,9 @@ Definition spec_c11 (c : cwcase) : list nat :=
             (if (match o_pending (st_co lst) with [] => true | _ => false end)
                 && forallb (unary_ok steps ids) (unary_payloads steps) then [] else [2%nat]) ++
             (if (so_sreg so =? -1) || (match o_reg (st_co lst) with None => true | Some _ => false end)
-             then [4%nat] else [])
+             then [4%nat] else []) ++
+            (* nothing failed (no transport fault in the run): Serve is still serving *)
+            (match m with ME2E => if so_serve so then [5%nat] else [] | _ => [] end)
       end
   | CwWedged _ _ _ _ _ => [3%nat]
   end.
